@@ -40,6 +40,11 @@ type Store struct {
 	fileCache *filecache.FileCache
 	freelist  *freelist.FreeList
 
+	// keyLks serialize the writers of a key, so that a Put or Remove does not
+	// act on a location that another Put or Remove of the same key has
+	// superseded in the meantime. A key is mapped to its lock by keyLock.
+	keyLks [256]sync.Mutex
+
 	stateLk sync.RWMutex
 	open    bool
 	running bool
@@ -374,10 +379,27 @@ func (s *Store) Put(key []byte, value []byte) error {
 	if err != nil {
 		return err
 	}
+
+	lk := s.keyLock(indexKey)
+	lk.Lock()
+	written, err := s.put(key, indexKey, value)
+	lk.Unlock()
+	if err != nil {
+		return err
+	}
+	if written {
+		s.flushTick()
+	}
+	return nil
+}
+
+// put stores the value for key, and returns true if anything was written. The
+// caller holds the key's lock.
+func (s *Store) put(key, indexKey, value []byte) (bool, error) {
 	// See if the key already exists and get offset
 	prevOffset, found, err := s.index.Get(indexKey)
 	if err != nil {
-		return err
+		return false, err
 	}
 	verifhook.Yield("store.Put.afterIndexGet")
 	// If found, get the key and value stored in primary to see if it is the
@@ -392,12 +414,12 @@ func (s *Store) Put(key []byte, value []byte) error {
 		}
 		prevOffset, found, err = s.index.Get(indexKey)
 		if err != nil {
-			return err
+			return false, err
 		}
 	}
 	if found {
 		if err != nil {
-			return err
+			return false, err
 		}
 		// We need to compare to the resulting indexKey to the storedKey. Two
 		// keys may point to same IndexKey (i.e. two CIDS same multihash), and
@@ -406,14 +428,14 @@ func (s *Store) Put(key []byte, value []byte) error {
 			// if we're not accepting updates, this is the point we bail --
 			// the identical key is in primary storage, we don't do update operations
 			if s.immutable {
-				return types.ErrKeyExists
+				return false, types.ErrKeyExists
 			}
 			cmpKey = true
 			if bytes.Equal(value, storedVal) {
 				// Trying to put the same value in an existing key, so ok to
 				// directly return. This is not needed for the blockstore, since it
 				// sets s.immutable = true.
-				return nil
+				return false, nil
 			}
 		}
 	}
@@ -424,7 +446,7 @@ func (s *Store) Put(key []byte, value []byte) error {
 	// under the hood while the index is primary storage-agnostic.
 	fileOffset, err := s.index.Primary.Put(key, value)
 	if err != nil {
-		return err
+		return false, err
 	}
 	verifhook.Yield("store.Put.afterPrimaryPut")
 
@@ -432,24 +454,22 @@ func (s *Store) Put(key []byte, value []byte) error {
 	// (even if same prefix is shared @index), we put the key without updates
 	if !cmpKey {
 		if err = s.index.Put(indexKey, fileOffset); err != nil {
-			return err
+			return false, err
 		}
 	} else {
 		// If the key exists and the one stored is the one we are trying
 		// to put this is an update.
 		// if found && bytes.Compare(key, storedKey) == 0 {
 		if err = s.index.Update(indexKey, fileOffset); err != nil {
-			return err
+			return false, err
 		}
 		// Add outdated data in primary storage to freelist
 		if err = s.freelist.Put(prevOffset); err != nil {
-			return err
+			return false, err
 		}
 	}
 
-	s.flushTick()
-
-	return nil
+	return true, nil
 }
 
 func (s *Store) Remove(key []byte) (bool, error) {
@@ -463,6 +483,32 @@ func (s *Store) Remove(key []byte) (bool, error) {
 	if err != nil {
 		return false, err
 	}
+
+	lk := s.keyLock(indexKey)
+	lk.Lock()
+	removed, err := s.remove(indexKey)
+	lk.Unlock()
+	if err != nil {
+		return false, err
+	}
+	if removed {
+		s.flushTick()
+	}
+	return removed, nil
+}
+
+// keyLock returns the lock that serializes the writers of the key.
+func (s *Store) keyLock(indexKey []byte) *sync.Mutex {
+	var h byte
+	if n := len(indexKey); n != 0 {
+		h = indexKey[n-1]
+	}
+	return &s.keyLks[h]
+}
+
+// remove removes the key, and returns true if it was present. The caller holds
+// the key's lock.
+func (s *Store) remove(indexKey []byte) (bool, error) {
 	// See if the key already exists and get offset
 	offset, found, err := s.index.Get(indexKey)
 	if err != nil {
@@ -509,7 +555,6 @@ func (s *Store) Remove(key []byte) (bool, error) {
 		}
 	}
 
-	s.flushTick()
 	return removed, nil
 }
 
